@@ -96,6 +96,8 @@ def write(prop, tier, seed, results, verdict, monitors, wall, rc, units):
         explanation="contracts are enforced per function (goto-instrument --dfcc --enforce-contract); callers are checked against callee "
                     "contracts only (--replace-call-with-contract); loops are closed by loop contracts or recursion contracts; "
                     "exit code of this run: %d" % rc)
+    if verdict.get('selftest') is not None:
+        cov['mutation_selftest'] = verdict['selftest']
     if verdict.get('pairs') is not None:
         cov['equivalence_pairs'] = verdict['pairs']
     if monitors is not None:
